@@ -295,8 +295,8 @@ class InputCursors:
                 self._set_alias(st, lv["d"], n["c"][1])
             elif l is not None and l.get("k") != "DeclRefExpr":
                 self._escape(n["c"][1], st, n)
-        elif k == "DeclStmt":
-            for v in kids(n):
+        elif k in ("DeclStmt", "Var"):
+            for v in ([n] if k == "Var" else kids(n)):
                 if v.get("k") == "Var" and self.status is not None and v["d"] == self.status and kids(v):
                     c = const_of(kids(v)[0])
                     st["#failed"] = 1 if (c is not None and c < 0) else 0
